@@ -49,10 +49,11 @@ func resumeCase(ctx context.Context, rep *mon.Reporter, rng *mon.Rand, spec *gsp
 				if call > 0 {
 					when = "resumed-call"
 				}
+				cl := "wrong-options"
 				if mc := mixedClass(os, want, got); mc != "" {
-					when = mc + "/" + when
+					cl = mc
 				}
-				rep.Violation(ID+"/wrong-options/"+when, fmt.Sprintf("call %d of an interrupted history (plan %s): node %s received %v, the reference router delivers %v\noptions: %+v", call, plan, e.Path, got, want, os), wit)
+				rep.Violation(ID+"/"+cl+"/"+when, fmt.Sprintf("call %d of an interrupted history (plan %s): node %s received %v, the reference router delivers %v\noptions: %+v", call, plan, e.Path, got, want, os), wit)
 				return
 			}
 			rep.Count("node_option_lists_checked", 1)
